@@ -305,7 +305,7 @@ def build(clean: bool = False, timeout: int = 3000):
             r = subprocess.run(['coq_makefile', '-f', '_CoqProject', '-o', 'Makefile'], cwd=str(COQ),
                                capture_output=True, text=True)
             log.append(r.stdout + r.stderr)
-        r = subprocess.run(['timeout', str(timeout), 'make', '-C', str(COQ), f'-j{NCPU}'],
+        r = subprocess.run(['timeout', str(timeout), 'make', '-k', '-C', str(COQ), f'-j{NCPU}'],
                            capture_output=True, text=True)
         log.append(r.stdout[-4000:] + r.stderr[-4000:])
         return r.returncode == 0, '\n'.join(log)
